@@ -389,6 +389,56 @@ func runC14(r *Run) {
 		}
 		f.close()
 	}
+	// recovery authenticating, its answer already received but queued behind a push whose handler is blocked; Close;
+	// the handler returns: the answer reaches the attempt after Close - no reconnect may be reported
+	{
+		base, baseAll := settle(), settleAll()
+		armed := int32(0)
+		release := make(chan struct{})
+		entered := make(chan struct{}, 1)
+		s := &session{tc: newTestClient(), v: 1, trans: "tcp"}
+		s.tc.cli.Subscribe(50, func(p *protocol.Packet) {
+			if atomic.CompareAndSwapInt32(&armed, 1, 2) {
+				entered <- struct{}{}
+				<-release
+			}
+		})
+		s.tcp = newTCPPeer()
+		errc := make(chan error, 1)
+		go func() {
+			errc <- s.tc.dial(s.tcp.url(), 1, client.DialTimeout(fDial), client.AuthTimeout(2*time.Second), client.Keepalive(time.Hour), client.KeepaliveTimeout(2*time.Hour),
+				client.WithAuthTokenGetter(func() (string, error) { return "tok", nil }))
+		}()
+		pc := s.tcp.accept(3 * time.Second)
+		if pc != nil && pc.readHandshake(time.Second) {
+			if q := pc.readFrame(2 * time.Second); q != nil {
+				pc.send(respFrame(1, 2, q.Rid, 0, authRespBody("s1", 60000)))
+			}
+			if err := <-errc; err == nil {
+				s.lk = tcpLink{pc}
+				f := &fsession{s, base, baseAll}
+				pc.close()
+				l2 := f.acceptNext(3 * time.Second)
+				if l2 != nil {
+					if q := l2.nextRequest(2 * time.Second); q != nil {
+						atomic.StoreInt32(&armed, 1)
+						one := append(pushFrame(1, 50, []byte("block")), respFrame(1, q.Cmd, q.Rid, 0, authRespBody("s2", 60000))...)
+						l2.(tcpLink).pc.send(one)
+						select {
+						case <-entered:
+							r.checkClose(f.tc, "recovery authenticating, answer queued behind a blocked handler")
+							close(release)
+							r.afterCloseQuiet(f, "recovery authenticating, answer queued behind a blocked handler", 600*time.Millisecond)
+						case <-time.After(2 * time.Second):
+							close(release)
+						}
+					}
+				}
+				r.st.Evaluations++
+			}
+		}
+		s.close()
+	}
 	// give-up fires, then the user closes as well; and the other order
 	if f, err := openF("tcp", client.MaxReconnect(1)); err == nil {
 		f.tcp.stopListening()
@@ -791,6 +841,21 @@ func runC06(r *Run) {
 		r.st.Dist["c06.stalled.queue-full-errors"] += full
 		r.st.Evaluations++
 		r.checkClose(f.tc, "tcp stalled peer, writer blocked in the socket write")
+		f.close()
+	}
+	// the same on WebSocket: the peer keeps the connection open but stops reading
+	if f, err := openF("ws", client.WriteQueueSize(2), client.MinGzipSize(0)); err == nil {
+		atomic.StoreInt32(&f.lk.(wsLink).pc.stopRead, 1)
+		body := bigBody()
+		var chans []chan doResult
+		for i := 0; i < 40; i++ {
+			chans = append(chans, f.tc.doAsync(uint32(60+i%8), body, fReq))
+			time.Sleep(5 * time.Millisecond)
+		}
+		for i, ch := range chans {
+			r.boundedDo(f, ch, fmt.Sprintf("ws stalled peer, 1 MiB request %d of 40, write queue of 2", i))
+		}
+		r.checkClose(f.tc, "ws stalled peer, writer blocked in the socket write")
 		f.close()
 	}
 	// WebSocket re-dial whose HTTP upgrade is never answered: calls before, during and after still return
